@@ -16,6 +16,14 @@ class BuildError(Exception):
         self.stage, self.log = stage, log
 
 
+class HarnessCrash(BuildError):
+    """the library killed the harness process (a fatal Go runtime error can not be recovered); script / step name the
+    operation that was running"""
+    def __init__(self, log, sdk, script, step):
+        super().__init__('harness-run', log)
+        self.sdk, self.script, self.step = sdk, script, step
+
+
 def sh(cmd, cwd=None, env=None, timeout=3600):
     p = subprocess.run(cmd, cwd=cwd, env=env, stdout=subprocess.PIPE, stderr=subprocess.STDOUT, timeout=timeout, text=True)
     return p.returncode, p.stdout
@@ -92,9 +100,27 @@ def run_harness(sdk, scripts, dump=True, tag='x'):
         for s in scripts:
             f.write(json.dumps(s) + '\n')
     cmd = [h, '-sdk', sdk, '-in', fin, '-out', fout] + (['-dump'] if dump else [])
-    rc, log = sh(cmd, timeout=3600)
+    fprog = fout + '.progress'
+    rc, log = sh(cmd, timeout=3600, env=dict(os.environ, VERIF_PROGRESS=fprog))
     if rc:
-        raise BuildError('harness-run', log[-4000:])
+        last = None
+        try:
+            lines = open(fprog).read().strip().split('\n')
+            sid, idx = lines[-1].split('\t')
+            last = (sid, int(idx))
+        except (OSError, ValueError):
+            pass
+        for f in (fin, fout, fprog):
+            try: os.remove(f)
+            except OSError: pass
+        head = log[:1500] if ('fatal error' in log[:3000] or 'panic' in log[:3000]) else log[-4000:]
+        if last:
+            scr = [s for s in scripts if s['id'] == last[0]]
+            if scr:
+                raise HarnessCrash(head, sdk, scr[0], last[1])
+        raise BuildError('harness-run', head)
+    try: os.remove(fprog)
+    except OSError: pass
     out = {}
     with open(fout) as f:
         for line in f:
